@@ -5,3 +5,4 @@ CHECK_DEADLOCK FALSE
 CONSTANTS
   MaxTok = 4
   Small = FALSE
+  Members = FALSE
